@@ -80,6 +80,19 @@ def gen_specs(run, group):
                   ("mixed bits", [a, c3]), ("mixed T", [a, d4]), ("mixed T rev", [d4, a]), ("mixed m", [a, b2]), ("mixed m rev", [b2, a]),
                   ("proof of other statement", [{"proof": 1, "stmt": a["stmt"], "ctx": a["ctx"]}]), ("proof with other T", [{"proof": 3, "stmt": a["stmt"], "ctx": a["ctx"]}]),
                   ("proof with other bits", [{"proof": 2, "stmt": a["stmt"], "ctx": a["ctx"]}])]
+        # statements whose promise vector does not match the commitments (the constructor must refuse them; if it ever lets one
+        # through, verification must still end with an error, not a panic)
+        for extra in (1, 2):
+            stx = gen.stmt_of(mem)
+            stx["promises"] = stx["promises"] + [None] * extra
+            shapes.append((f"statement with {extra} surplus promise(s)", [{"proof": 0, "stmt": stx, "ctx": a["ctx"]}]))
+            sty = gen.stmt_of(mem)
+            sty["promises"] = sty["promises"] + ["1"] * extra
+            shapes.append((f"statement with {extra} surplus Some(1) promise(s), second", [a, {"proof": 0, "stmt": sty, "ctx": a["ctx"]}]))
+        if m > 1:
+            stz = gen.stmt_of(mem)
+            stz["promises"] = stz["promises"][:-1]
+            shapes.append(("statement with a missing promise", [{"proof": 0, "stmt": stz, "ctx": a["ctx"]}]))
         for name, vm in shapes:
             for md in modes:
                 verifies.append({"mode": md, "vmembers": vm})
